@@ -183,6 +183,11 @@ func (h *HTMLReport) AssetEnd(name string) error {
 	delete(h.assetResults, name)
 	h.mu.Unlock()
 
+	// Nothing to rank if every strategy failed to be written for this asset.
+	if len(results) == 0 {
+		return fmt.Errorf("no results for asset: %s", name)
+	}
+
 	// Sort the backtest results by the outcomes.
 	slices.SortFunc(results, func(a, b *htmlReportResult) int {
 		return cmp.Compare(b.Outcome, a.Outcome)
